@@ -442,7 +442,7 @@ func lpTerm(c *lpCase, obs []lpObs) string {
 func loopGen(r *rand.Rand, idx int, thorough bool) interface{} {
 	L := pick64(r, 100, 100, 60, 200)
 	H := pick64(r, 0, 0, L/2, L)
-	c := &lpCase{Opts: coOpts{MaxHead: H, MaxProc: L, MaxShard: int32(4 + r.Intn(3)), MinShard: int32(r.Intn(2)), MaxIdle: pick64(r, 0, 600, 600)}}
+	c := &lpCase{Opts: coOpts{MaxHead: H, MaxProc: L, MaxShard: int32(4 + r.Intn(3)), MinShard: int32(r.Intn(2)), MaxIdle: pick64(r, 0, 600, 600), DisableAlleviate: r.Intn(4) == 0}}
 	lim := L
 	if H != 0 {
 		lim = H
